@@ -27,6 +27,7 @@ var Registry = map[string]func(c *Ctx, arg string) error{
 			return nil
 		}
 		RunProducerCrashEnum(c)
+		RunProducerCacheTear(c)
 		if c.Thorough() {
 			RunProducerRandom(c, 60, 200)
 		} else {
